@@ -22,7 +22,7 @@ ROOT = os.path.dirname(os.path.dirname(os.path.abspath(__file__)))
 sys.path.insert(0, ROOT)
 os.chdir(ROOT)
 
-CONTRACT_MODULES = ['calendar', 'schedule', 'passes', 'task', 'children', 'closure', 'small', 'wbs', 'query', 'text', 'csvio', 'rawio', 'critpath', 'render', 'clone', 'loops', 'network', 'usage']
+CONTRACT_MODULES = ['calendar', 'schedule', 'passes', 'task', 'children', 'closure', 'small', 'wbs', 'query', 'text', 'csvio', 'rawio', 'critpath', 'render', 'clone', 'loops', 'network', 'usage', 'sheetrows']
 NATIVE_PY = '/venv/bin/python'
 
 
